@@ -296,6 +296,8 @@ def main():
             if env["changed"] != (not want_frozen) or bool(env["m"]._tree_frozen) != want_frozen:
                 rac.fail(key, f"C17 after {' , '.join(seq)}: a new definition is {'accepted' if env['changed'] else 'refused'} "
                          f"(frozen flag {env['m']._tree_frozen!r}); the last call was {seq[-1]}_tree", scr, "Manager.unfreeze_tree")
+    from rac import eqvals
+    eqvals.run(rac, "C17", frozen=True)
     rac.section("random", "random histories of length 4..10, same checks", "40 quick / 600 thorough", exhaustive=False)
     for _ in range(40 if quick else 600):
         if rac.out_of_time(0.95):
